@@ -42,7 +42,9 @@ fn props() -> Vec<PropDef> {
         p!("C06", "exploration", c06),
         p!("C07", "fault_enumeration", c07),
         p!("C08", "exploration", c08),
+        p!("C09", "exploration", c09),
         p!("C10", "fault_enumeration", c10),
+        p!("C11", "exploration", c11),
     ]
 }
 
